@@ -316,15 +316,16 @@ def stream_collections(ctx, drv, n):
                 ctx.violations.append({"what": f"collect aborted with {sub['exc']}", "replay": {
                     "kind": "collection", "files": sub_files, "impl": sub, "model": None, "spec": "a database"}})
                 continue
-            internal_w = {p.replace("/", ".") for p in files} | {".py"}
-            internal_s = {p.replace("/", ".") for p in sub_files} | {".py"}
+            internal_w = set(files) | {".py"}
+            internal_s = set(sub_files) | {".py"}
             for p in subset:
                 # hypothesis of C03_collection, on the raw labels (un-relabelled = those of the smaller collection,
                 # where fewer imports are internal; relabelled ones have no `import:` form any more)
                 raw = [n.replace("_internally:", ":", 1).replace("/", ".") if n.startswith(("import_internally:", "import_module_internally:")) else n
                        for n in sub["programs"][p]["labels"]]
                 found = drv.call("c11.relabel", paths=[], names=raw)["search"]
-                same = all(m is None or ((m + ".py" in internal_w) == (m + ".py" in internal_s)) for m in found)
+                same = all(m is None or ((m.replace(".", "/") + ".py" in internal_w) == (m.replace(".", "/") + ".py" in internal_s))
+                           for m in found)
                 ctx.count("sub-collections", (json.dumps(files, sort_keys=True), tuple(subset), p), nontrivial=len(subset) < len(files))
                 ctx.dist("subcollection.hypothesis_holds" if same else "subcollection.imports_removed_file")
                 if same and whole["programs"][p] != sub["programs"][p]:
